@@ -110,15 +110,25 @@ class RawPayloadDecoder(AbstractSimplePayloadDecoder):
 
             return
 
+        value = noValue
+
         while True:
-            for value in decodeFun(
+            for component in decodeFun(
                     substrate, asn1Spec, tagSet, length,
                     allowEoo=True, **options):
 
-                if value is eoo.endOfOctets:
-                    return
+                if isinstance(component, SubstrateUnderrunError):
+                    yield component
 
-                yield value
+                if component is eoo.endOfOctets:
+                    break
+
+            if component is eoo.endOfOctets:
+                break
+
+            value = component
+
+        yield value
 
 
 rawPayloadDecoder = RawPayloadDecoder()
